@@ -811,7 +811,10 @@ class TreeSim(WorldBase):
         else:
             val = v
         try:
-            f[pos] = val
+            if not sl.free and level == 0 and a.get("via") == "t":
+                sl.t[pos] = val           # the tensor-level wrapper
+            else:
+                f[pos] = val
         except CoordinateError:
             self.fault("rejected:setitem")
             self.probe("setitem_rejected")
@@ -1773,7 +1776,7 @@ class TreeSim(WorldBase):
             pos = g.choice([n, n + 1, -n - 1])
         else:
             pos = g.randrange(-n, n) if g.random() < 0.3 else g.randrange(n)
-        a = {"slot": s, "prefix": enc_point(pre), "pos": pos}
+        a = {"slot": s, "prefix": enc_point(pre), "pos": pos, "via": g.choice(["t", "f"])}
         mode = g.choice(["p", "c", "cp"])
         if mode in ("c", "cp"):
             p = pos % n if -n <= pos < n else 0
